@@ -777,7 +777,7 @@ func knownFlag(f condFacts, vals map[ssa.Value]bool, want bool) bool {
 
 // RuleFsGuard: with --check no file-system mutation is reachable.
 func (c *Ctx) RuleFsGuard(commands []string) *Result {
-	res := &Result{Rule: "FS-GUARD", MinInst: 2}
+	res := &Result{Rule: "FS-GUARD", MinInst: len(commands)}
 	g := c.Graph()
 	cm := c.Commands()
 	for _, name := range commands {
@@ -858,7 +858,7 @@ func (c *Ctx) chainFacts(ch *chain, site ssa.Instruction) []condFacts {
 
 // RuleFsTarget: rewriting commands touch only their targets.
 func (c *Ctx) RuleFsTarget(commands []string) *Result {
-	res := &Result{Rule: "FS-TARGET", MinInst: 5}
+	res := &Result{Rule: "FS-TARGET", MinInst: len(commands)}
 	g := c.Graph()
 	cm := c.Commands()
 	for _, name := range commands {
@@ -1150,7 +1150,7 @@ func (c *Ctx) matchPred(patName string) func(cond ssa.Value, val bool) bool {
 
 func isGlobResult(v ssa.Value) bool {
 	ex, ok := v.(*ssa.Extract)
-	if !ok {
+	if !ok || ex.Index != 0 {
 		return false
 	}
 	call, ok := ex.Tuple.(*ssa.Call)
@@ -1211,7 +1211,7 @@ func globSinglePred(cond ssa.Value, val bool) bool {
 // would write with the current contents of the file that would be written,
 // and fails exactly when they differ.
 func (c *Ctx) RuleFsSame(commands []string) *Result {
-	res := &Result{Rule: "FS-SAME", MinInst: 2}
+	res := &Result{Rule: "FS-SAME", MinInst: len(commands)}
 	g := c.Graph()
 	cm := c.Commands()
 	for _, name := range commands {
